@@ -232,6 +232,7 @@ def run_history(spec):
     m = Model(cfg, plain=plain)
     runs = []
     tmp = None
+    changed_cfg = False
     base_opts = dict(cfg["opts"])
     for op in spec["ops"]:
         kind = op["op"]
@@ -248,9 +249,18 @@ def run_history(spec):
                 t._verif_rank = r
         light = bool(op.get("light"))
         if kind == "rebuild":
-            m = Model(cfg, plain=bool(op.get("plain", plain)))
+            m = Model(cfg, plain=bool(op.get("plain", plain)))   # (of the possibly edited cfg)
         elif kind == "snapshot":
             pass
+        elif kind == "add_dep":
+            # the user edits the workflow between two runs: a new dependency pred -> succ
+            pr, su, kd = op["dep"]
+            from .build import DEP
+            m.tasks[su - 1].append_input_task(m.tasks[pr - 1], task_dependency_mode=DEP[kd])
+            cfg = _json.loads(_json.dumps(cfg))
+            cfg["deps"].append([pr, su, kd])
+            m.cfg = cfg
+            changed_cfg = True
         elif kind == "simulate":
             kw = dict(task_priority_rule=TRULE[o["rule"]], absence_time_list=list(o["absL"]),
                       perform_auto_task_while_absence_time=o["autoAbs"], max_time=o["maxTime"],
@@ -300,12 +310,14 @@ def run_history(spec):
         else:
             raise ValueError("unknown op %r" % kind)
         rec["final"] = snapshot(m)
+        if changed_cfg:
+            rec["cfg"] = cfg
         runs.append(rec)
     if tmp is not None:
         import shutil
         shutil.rmtree(tmp, ignore_errors=True)
     _reset_default_arguments()
-    return {"cfg": cfg, "runs": runs, "spec": spec}
+    return {"cfg": spec["cfg"], "runs": runs, "spec": spec}
 
 
 def _reset_default_arguments():
